@@ -999,7 +999,25 @@ const noSignAfterPoint = `([^.]|\.+[^.+\-])*\.*`
 // rejection of both ".-" and ".+" in its input (two strings.Contains tests decided false, a same-package helper
 // for which this holds returning nil, or a match of the input against an anchored package-level regex whose
 // language contains no such string — decided by automata).
+// decimalGrammar: the finite decimal strings apd parses to the value they denote — optional sign, digits with an
+// optional fraction or a bare fraction, optional exponent with either spelling of the marker.
+const decimalGrammar = `[+\-]?([0-9]+\.?[0-9]*|\.[0-9]+)([eE][+\-]?[0-9]+)?`
+
 func ruleMantissaSign(c *Ctx, p *Program, fn *ssa.Function) {
+	// a parser that rejects on a regex mismatch must not reject a decimal: "parsing a decimal string yields
+	// exactly that value" fails just as well when "1E+1" is turned away (round-7 seed C19-13)
+	for _, src := range inputRegexes(p, fn, 0) {
+		body := strings.TrimSuffix(strings.TrimPrefix(src, "^"), "$")
+		inc, counter, _, err := langIncluded(decimalGrammar, body)
+		switch {
+		case err != nil:
+			c.Undecide("C19.M4", "NewDecFromString#grammar:"+src, p.Pos(fn.Pos()), "the parser matches its input against "+src+", which the automata construction cannot compile: "+err.Error())
+		case !inc:
+			c.Violate("C19.M4", "NewDecFromString#grammar", p.Pos(fn.Pos()), fmt.Sprintf("the parser matches its input against %s, which excludes the decimal string %q: a decimal the chain accepted before is rejected (every constructor, message validator and genesis validation goes through this function)", src, counter), nil)
+		default:
+			c.Hold("C19.M4", "NewDecFromString#grammar", p.Pos(fn.Pos()), "the regex the parser matches its input against ("+src+") includes every finite decimal string (automata inclusion)", nil)
+		}
+	}
 	ok, why := mantissaSignGuarded(p, fn, 0)
 	c.Check(ok, "C19.M4", "NewDecFromString#mantissa-sign", p.Pos(fn.Pos()), "every success return lies behind the rejection of a sign directly after the decimal point (\".-5\" would yield a negative coefficient not flagged negative, \".+5\" the value 0.05)"+why)
 }
@@ -1855,4 +1873,73 @@ func finiteGuarded(fn *ssa.Function, depth int) bool {
 		return false
 	})
 	return ok
+}
+
+// inputRegexes: sources of the package-level regexes against which fn (or a same-package helper it hands its
+// string parameter to) matches that parameter — directly or after a default for the empty string.
+func inputRegexes(p *Program, fn *ssa.Function, depth int) []string {
+	if depth > 2 || len(fn.Blocks) == 0 {
+		return nil
+	}
+	var prm *ssa.Parameter
+	for _, q := range fn.Params {
+		if b, isB := q.Type().Underlying().(*types.Basic); isB && b.Kind() == types.String {
+			prm = q
+			break
+		}
+	}
+	if prm == nil {
+		return nil
+	}
+	var from func(v ssa.Value, d int) bool
+	from = func(v ssa.Value, d int) bool {
+		if v == ssa.Value(prm) {
+			return true
+		}
+		if ph, ok := v.(*ssa.Phi); ok && d < 3 {
+			for _, e := range ph.Edges {
+				if from(e, d+1) {
+					return true
+				}
+			}
+		}
+		if cl, ok := v.(*ssa.Call); ok && d < 3 {
+			// strings.ToLower(s), strings.TrimSpace(s) …: still the input
+			if pkg, _ := calleePkgName(&cl.Call); pkg == "strings" && len(cl.Call.Args) > 0 {
+				return from(cl.Call.Args[0], d+1)
+			}
+		}
+		return false
+	}
+	var out []string
+	for _, ci := range callsIn(fn) {
+		call, isCall := ci.(*ssa.Call)
+		if !isCall {
+			continue
+		}
+		pkg, name := calleePkgName(&call.Call)
+		if pkg == "regexp" && len(call.Call.Args) >= 2 && (strings.HasPrefix(name, "Regexp.Match") || strings.HasPrefix(name, "Regexp.Find")) && from(call.Call.Args[1], 0) {
+			r, ok := resolveGlobRef(call.Call.Args[0], map[*ssa.Parameter]globRef{}, 0)
+			if ok {
+				r, ok = globalFieldInit(r, 0)
+			}
+			if ok && r.g.Pkg != nil && len(r.fields) == 0 {
+				if src, _, okS := regexSourceOf(p, shortPkg(r.g.Pkg.Pkg.Path()), r.g.Name()); okS {
+					out = append(out, src)
+					continue
+				}
+			}
+			out = append(out, "<unresolved regex at "+p.Pos(call.Pos())+">")
+			continue
+		}
+		if sc := call.Call.StaticCallee(); sc != nil && sc != fn && sc.Pkg == fn.Pkg && len(sc.Blocks) > 0 {
+			for _, a := range call.Call.Args {
+				if from(a, 0) {
+					out = append(out, inputRegexes(p, sc, depth+1)...)
+					break
+				}
+			}
+		}
+	}
+	return out
 }
